@@ -7,7 +7,7 @@
 (* and nothing else.  Generator of configurations for the replay.            *)
 EXTENDS Naturals, Sequences, FiniteSets, TLC, Json
 
-ObjKind == {"module", "state_dict", "nested", "zero_size", "shared_storage", "mixed_dtypes", "sequential"}
+ObjKind == {"module", "state_dict", "nested", "zero_size", "shared_storage", "mixed_dtypes", "sequential", "deep_module", "many_tensors"}
 Payload == {"plain", "newline", "nonascii", "quotes"}
 VARIABLES kind, payload, overwrite
 vars == <<kind, payload, overwrite>>
